@@ -16,7 +16,7 @@
      pike_search_start_leftmost_end_valid_partial, pike_search_start_is_ref_partial,
      pike_search_unique_end_is_ref_partial, pike_search_anchored_valid : SearchAt — leftmost
         START equal to the reference's, END valid (see the status comment before Section Top
-        for the full statement pike_search_is_ref, which is NOT proved)
+        for the full statement pike_search_is_ref, which is proved in PikeSpan.v)
      sclosure_is_closure          : the explicit-stack closures (addSearchThread,
         addThreadForMatch) list the same threads in the same order as the recursive one  *)
 From Coq Require Import List NArith ZArith Lia Bool Arith PeanoNat.
@@ -1647,7 +1647,8 @@ End IsMatchAnchored.
        pike_search_at A h at_ = span_of (find_at A h at_).
 
    (the reported END is the leftmost-first end, i.e. the first success of the priority-ordered
-   depth-first search `Nfa.dfs` from the leftmost matching start) is NOT proved here.  It is
+   depth-first search `Nfa.dfs` from the leftmost matching start) is not proved in THIS file:
+   it is PikeSpan.pike_search_is_ref (Props_PikeSpan.v), which follows the route below.  It is
    validated by the correspondence run only (`ref_mismatches` of the case files, and `ex_agree`
    below, which includes lazy quantifiers, prioritised alternations and an epsilon cycle).
    Proved instead, for every wf NFA, haystack and offset:
@@ -1672,7 +1673,8 @@ End IsMatchAnchored.
          the Match threads cut before (threads kept by `cut` precede the cut Match thread);
      (G) for the unanchored loop: threads of starts without any accepting path only block
          (never reach Match) and a successor-closed blocked set filters the closure without
-         changing the order of the remaining threads. *)
+         changing the order of the remaining threads.
+   (Carried out in PikeSpan.v.) *)
 Section Top.
   Variable A : nfa.
   Variable h : hay.
